@@ -57,6 +57,7 @@ type immut struct {
 	mutable   map[*types.Named]bool
 	lbl       map[ssa.Value]label
 	fieldLbl  map[*types.Var]label // fields of mutable structs
+	holds     map[ssa.Value]label  // fresh slices whose elements are labelled values
 	origin    map[ssa.Value]string
 	nObl      map[string]int
 }
@@ -212,7 +213,7 @@ func exported(fn *ssa.Function) bool {
 func ruleImmut(p *Prog, r *Report) {
 	const rule = "R12-immut"
 	im := &immut{p: p, r: r, immutable: map[*types.Named]bool{}, mutable: map[*types.Named]bool{},
-		lbl: map[ssa.Value]label{}, fieldLbl: map[*types.Var]label{}, origin: map[ssa.Value]string{}, nObl: map[string]int{}}
+		lbl: map[ssa.Value]label{}, fieldLbl: map[*types.Var]label{}, holds: map[ssa.Value]label{}, origin: map[ssa.Value]string{}, nObl: map[string]int{}}
 
 	// classify the module's struct types: a struct is a mutable helper when a
 	// field of it is stored outside a fresh allocation of the storing function
@@ -397,6 +398,9 @@ func ruleImmut(p *Prog, r *Report) {
 		for _, fn := range p.Funcs {
 			for _, b := range fn.Blocks {
 				for _, instr := range b.Instrs {
+					if im.flowHolds(instr) {
+						changed = true
+					}
 					switch x := instr.(type) {
 					case *ssa.Slice:
 						if l := im.lbl[x.X]; l != lblNone && isRefType(x.Type()) && im.setLabel(x, l, im.origin[x.X]) {
@@ -422,6 +426,19 @@ func ruleImmut(p *Prog, r *Report) {
 						}
 					case *ssa.UnOp:
 						if x.Op == token.MUL {
+							// an element read out of a holder of labelled values
+							if ia, ok := x.X.(*ssa.IndexAddr); ok {
+								if l := im.holds[ia.X]; l != lblNone && im.setLabel(x, l, im.origin[ia.X]) {
+									changed = true
+								}
+							}
+							if al, ok := x.X.(*ssa.Alloc); ok {
+								if l := im.holds[al]; l != lblNone && im.holds[x] == lblNone {
+									im.holds[x] = l
+									im.origin[x] = im.origin[al]
+									changed = true
+								}
+							}
 							// load from a labelled local cell or a labelled field of a mutable struct
 							if al, ok := x.X.(*ssa.Alloc); ok {
 								if l := im.lbl[al]; l != lblNone && im.setLabel(x, l, im.origin[al]) {
@@ -438,6 +455,21 @@ func ruleImmut(p *Prog, r *Report) {
 						}
 					case *ssa.Store:
 						l := im.lbl[x.Val]
+						if l == lblNone {
+							l = im.holds[x.Val]
+						}
+						if ia, ok := x.Addr.(*ssa.IndexAddr); ok && l != lblNone && im.freshContainer(ia.X) && im.holds[ia.X] == lblNone {
+							// a new slice filled with labelled values: followed as a holder of them
+							im.holds[ia.X] = l
+							im.origin[ia.X] = im.origin[x.Val]
+							changed = true
+						}
+						if al, ok := x.Addr.(*ssa.Alloc); ok && im.holds[x.Val] != lblNone && im.holds[al] == lblNone {
+							im.holds[al] = im.holds[x.Val]
+							im.origin[al] = im.origin[x.Val]
+							changed = true
+						}
+						l = im.lbl[x.Val]
 						if l == lblNone {
 							continue
 						}
@@ -519,6 +551,11 @@ func ruleImmut(p *Prog, r *Report) {
 		bads = append(bads, site{fmt.Sprintf("%s:I2:%s:%s#%d", rule, FnName(fn), kind, im.nObl[FnName(fn)+kind]), p.Pos(pos),
 			fmt.Sprintf("%s: %s (%s — %s)", FnName(fn), msg, im.lbl[v], im.origin[v])})
 	}
+	addBadH := func(fn *ssa.Function, kind string, pos token.Pos, v ssa.Value, msg string) {
+		im.nObl[FnName(fn)+kind]++
+		bads = append(bads, site{fmt.Sprintf("%s:I2:%s:%s#%d", rule, FnName(fn), kind, im.nObl[FnName(fn)+kind]), p.Pos(pos),
+			fmt.Sprintf("%s: %s %s (%s)", FnName(fn), msg, im.holds[v], im.origin[v])})
+	}
 	for _, fn := range p.Funcs {
 		for _, b := range fn.Blocks {
 			for _, instr := range b.Instrs {
@@ -526,6 +563,17 @@ func ruleImmut(p *Prog, r *Report) {
 				case *ssa.Store:
 					if ia, ok := x.Addr.(*ssa.IndexAddr); ok && im.lbl[ia.X] != lblNone {
 						addBad(fn, "elem-store", x.Pos(), ia.X, "writes an element of")
+					}
+					if l := im.holds[x.Val]; l != lblNone {
+						switch a := x.Addr.(type) {
+						case *ssa.Alloc:
+						case *ssa.IndexAddr:
+							if !im.freshContainer(a.X) {
+								addBadH(fn, "store-into-slice", x.Pos(), x.Val, "stores a new slice holding it as an element of another slice")
+							}
+						default:
+							addBadH(fn, "capture", x.Pos(), x.Val, "stores a new slice holding it into a field or variable")
+						}
 					}
 					if l := im.lbl[x.Val]; l != lblNone {
 						switch a := x.Addr.(type) {
@@ -542,6 +590,9 @@ func ruleImmut(p *Prog, r *Report) {
 						case *ssa.Global:
 							addBad(fn, "global-store", x.Pos(), x.Val, "stores it into a package-level variable")
 						case *ssa.IndexAddr:
+							if im.freshContainer(a.X) {
+								break // the new slice is followed as a holder of it
+							}
 							addBad(fn, "store-into-slice", x.Pos(), x.Val, "stores it as an element of another slice")
 						default:
 							addBad(fn, "store", x.Pos(), x.Val, "stores it through a pointer of unknown provenance")
@@ -556,6 +607,9 @@ func ruleImmut(p *Prog, r *Report) {
 						for _, rv := range x.Results {
 							if im.lbl[rv] != lblNone && isRefType(rv.Type()) {
 								addBad(fn, "return", x.Pos(), rv, "returns, from an exported function,")
+							}
+							if im.holds[rv] != lblNone {
+								addBadH(fn, "return", x.Pos(), rv, "returns, from an exported function, a new slice holding")
 							}
 						}
 					}
@@ -580,6 +634,16 @@ func ruleImmut(p *Prog, r *Report) {
 					}
 					callees := p.Callees(x)
 					for ai, a := range com.Args {
+						if im.holds[a] != lblNone {
+							for _, c := range callees {
+								if !InModule(c) && c.Synthetic == "" {
+									addBadH(fn, "extern:"+FnName(c), x.Pos(), a, fmt.Sprintf("passes (argument %d) to %s a new slice holding", ai, FnName(c)))
+								}
+							}
+							if len(callees) == 0 {
+								addBadH(fn, "unknown-call", x.Pos(), a, "passes to a call whose target is unknown a new slice holding")
+							}
+						}
 						if im.lbl[a] == lblNone {
 							continue
 						}
@@ -646,55 +710,22 @@ func ruleImmut(p *Prog, r *Report) {
 		for mname, m := range pk.Members {
 			if g, ok := m.(*ssa.Global); ok && !strings.HasPrefix(mname, "init$") {
 				key := fmt.Sprintf("%s:I5:global:%s.%s", rule, name, mname)
-				written := false
-				for _, fn := range p.Funcs {
-					if fn.Name() == "init" {
-						continue
-					}
-					for _, b := range fn.Blocks {
-						for _, instr := range b.Instrs {
-							if st, ok := instr.(*ssa.Store); ok && st.Addr == ssa.Value(g) {
-								written = true
-							}
-							if mu, ok := instr.(*ssa.MapUpdate); ok {
-								if ld, ok := mu.Map.(*ssa.UnOp); ok && ld.X == ssa.Value(g) {
-									written = true
-								}
-							}
-						}
-					}
-				}
 				holdsMutable := ""
 				for n := range im.mutable {
 					if mentions(g.Type().(*types.Pointer).Elem(), n) {
 						holdsMutable = n.Obj().Name()
 					}
 				}
-				// a store through the pointer held by the global
-				for _, fn := range p.Funcs {
-					for _, b := range fn.Blocks {
-						for _, instr := range b.Instrs {
-							if st, ok := instr.(*ssa.Store); ok {
-								if ld, ok := rootOf(st.Addr).(*ssa.UnOp); ok && ld.X == ssa.Value(g) && fn.Name() != "init" {
-									written = true
-								}
-								if ia, ok := st.Addr.(*ssa.IndexAddr); ok {
-									if ld, ok := ia.X.(*ssa.UnOp); ok && ld.X == ssa.Value(g) && fn.Name() != "init" {
-										written = true
-									}
-								}
-							}
-						}
-					}
-				}
-				if holdsMutable != "" {
+				ro, why := p.globalReadOnly(g)
+				switch {
+				case holdsMutable != "":
 					r.bad(rule, key, p.Pos(g.Pos()), fmt.Sprintf("package-level variable %s.%s holds the mutable helper struct %s: per-call state shared by all calls and goroutines", name, mname, holdsMutable))
-				} else if written {
-					r.bad(rule, key, p.Pos(g.Pos()), fmt.Sprintf("package-level variable %s.%s is written after initialisation: state shared by all calls and goroutines", name, mname))
-				} else if isRefType(g.Type().(*types.Pointer).Elem()) {
-					r.bad(rule, key, p.Pos(g.Pos()), fmt.Sprintf("package-level %s.%s is a slice or map: shared storage that the analysis does not track", name, mname))
-				} else {
-					r.ok(rule, key, p.Pos(g.Pos()), "package-level variable is never written after initialisation")
+				case !ro:
+					r.bad(rule, key, p.Pos(g.Pos()), fmt.Sprintf("package-level variable %s.%s is not only read after initialisation (%s): state shared by all calls and goroutines", name, mname, why))
+				case isRefType(g.Type().(*types.Pointer).Elem()):
+					r.ok(rule, key, p.Pos(g.Pos()), "package-level table: assigned only by the package initialiser; its elements, windows and fields are only read, also through the module functions they are passed to")
+				default:
+					r.ok(rule, key, p.Pos(g.Pos()), "package-level variable is never written after initialisation, neither directly nor through what it holds")
 				}
 			}
 		}
@@ -799,4 +830,102 @@ func findGoStmts(funcs []*ssa.Function) []finding {
 		}
 	}
 	return out
+}
+
+// freshContainer: a slice made in this very function (or already followed as
+// a holder): storing a labelled value into it does not touch existing storage.
+func (im *immut) freshContainer(v ssa.Value) bool {
+	if im.holds[v] != lblNone {
+		return true
+	}
+	switch x := v.(type) {
+	case *ssa.MakeSlice:
+		return true
+	case *ssa.Slice:
+		if al, ok := x.X.(*ssa.Alloc); ok {
+			_, isArr := al.Type().(*types.Pointer).Elem().Underlying().(*types.Array)
+			return isArr
+		}
+	case *ssa.Alloc:
+		_, isArr := x.Type().(*types.Pointer).Elem().Underlying().(*types.Array)
+		return isArr
+	}
+	return false
+}
+
+// flowHolds carries the holder mark along the value flow: windows, phis,
+// conversions, interface boxing, arguments to parameters, results back.
+func (im *immut) flowHolds(instr ssa.Instruction) bool {
+	set := func(v ssa.Value, from ssa.Value) bool {
+		if l := im.holds[from]; l != lblNone && im.holds[v] == lblNone {
+			im.holds[v] = l
+			im.origin[v] = im.origin[from]
+			return true
+		}
+		return false
+	}
+	changed := false
+	switch x := instr.(type) {
+	case *ssa.Slice:
+		changed = set(x, x.X)
+	case *ssa.Phi:
+		for _, e := range x.Edges {
+			if set(x, e) {
+				changed = true
+			}
+		}
+	case *ssa.ChangeType:
+		changed = set(x, x.X)
+	case *ssa.MakeInterface:
+		changed = set(x, x.X)
+	case *ssa.TypeAssert:
+		changed = set(x, x.X)
+	case *ssa.Call:
+		if bi, ok := x.Common().Value.(*ssa.Builtin); ok {
+			if bi.Name() == "append" {
+				changed = set(x, x.Common().Args[0])
+				if len(x.Common().Args) > 1 && set(x, x.Common().Args[1]) {
+					changed = true
+				}
+			}
+			return changed
+		}
+		for _, callee := range im.p.Callees(x) {
+			if !InModule(callee) || callee.Blocks == nil {
+				continue
+			}
+			off := 0
+			if x.Common().IsInvoke() {
+				off = 1
+			}
+			for i, a := range x.Common().Args {
+				if i+off < len(callee.Params) && set(callee.Params[i+off], a) {
+					changed = true
+				}
+			}
+			for _, cb := range callee.Blocks {
+				ret, ok := cb.Instrs[len(cb.Instrs)-1].(*ssa.Return)
+				if !ok {
+					continue
+				}
+				for ri, rv := range ret.Results {
+					if im.holds[rv] == lblNone {
+						continue
+					}
+					if len(ret.Results) == 1 {
+						if set(x, rv) {
+							changed = true
+						}
+					} else if refs := x.Referrers(); refs != nil {
+						for _, ref := range *refs {
+							if ex, ok := ref.(*ssa.Extract); ok && ex.Index == ri && set(ex, rv) {
+								changed = true
+							}
+						}
+					}
+				}
+			}
+		}
+	}
+	return changed
 }
